@@ -2,7 +2,7 @@
    Property theorems only; the model is Bac.Net (no proofs), the proofs live in Bac.NetFacts.
    Local theorems hold for EVERY node state, adapter, and arriving frame of the model.  `Fwd` marks the copies made
    by the forwarding section of process_npdu (netservice.py:607-676), `Tx` every other frame a node emits. *)
-From Bac Require Import Base Net NetFacts NetTerm NetTerm2 NetReply NetOnce NetRoute NetArrive NetLocal NetBcast.
+From Bac Require Import Base Net NetFacts NetTerm NetTerm2 NetReply NetOnce NetRoute NetArrive NetLocal NetBcast NetTree.
 Open Scope N_scope.
 
 (* each router hop lowers the hop count by exactly one, and keeps payload and message type *)
@@ -305,6 +305,56 @@ Theorem C06_tree_remote_broadcast_once_partial : forall lns ns f hs,
 Proof. exact bcast_route_arrives. Qed.
 Print Assumptions C06_tree_remote_broadcast_once_partial.
 
+(* ================= loop-free internetworks with warm caches =================
+   `internet_ok`: the LAN member lists and the nodes' ports agree, link addresses are distinct on each LAN, no node
+   has two ports on one LAN, every node is a router (>= 2 ports on different LANs, every port bound with number and
+   address, no application) or a station (one port, told nothing / its address / network and address, application).
+   `tree_to d lv up par`: loop-free as seen from network d — every LAN has a level lv (router hops to d, lv d = 0),
+   every router has exactly one port `up` towards d and its other ports are on LANs one level further away, every
+   LAN other than d has a router port `par` that leads towards d — and warm towards d: every router not attached
+   to d has as its path to d exactly (up port, address of the par port of its up-network).  (A connected bipartite
+   graph of LANs and routers is a tree iff it has such a level structure; that equivalence is not formalised.) *)
+
+(* C06_tree_unicast_once: on a loop-free internetwork with warm caches a unicast from a station on network s to
+   station (d, dm) ends with an empty queue, stays quiet for ever, and exactly one PDU was handed up: the unchanged
+   payload, at the addressed station, showing the originator's network and address.  Any cache contents about other
+   networks, any parked packets elsewhere. *)
+Theorem C06_tree_unicast_once : forall w d lv up par src ws s smac a_s tgt wt dm a_t data mR,
+  internet_ok (lans w) (nodes w) -> tree_to (lans w) (nodes w) d lv up par ->
+  queue w = [] ->
+  In (tgt, 0%nat) (lan_members (lans w) d) -> nth_error (nodes w) tgt = Some wt ->
+  w_ports wt = [(d, dm)] -> adapters (w_node wt) = [a_t] -> (a_net a_t = None \/ a_net a_t = Some d) ->
+  has_app (w_node wt) = true ->
+  nth_error (nodes w) src = Some ws -> w_ports ws = [(s, smac)] -> adapters (w_node ws) = [a_s] ->
+  (a_net a_s = None \/ a_net a_s = Some s) ->
+  (0 < lv s <= 255)%nat ->
+  pending_get (pending (w_node ws)) d = None ->
+  port_mac (nodes w) (par s) = Some mR -> cache_get (rcache (w_node ws)) (a_net a_s) d = Some mR ->
+  apdu_ok data = true ->
+  let w0 := submit w src (ARS d dm) data in
+  exists k osn, queue (run k w0) = [] /\ (forall k', (k <= k')%nat -> run k' w0 = run k w0) /\
+                trace (run k w0) = osn ++ trace w /\ oups osn = [OUp tgt (ARS s smac) (ALS dm) data].
+Proof. exact tree_unicast_once. Qed.
+Print Assumptions C06_tree_unicast_once.
+
+(* C06_tree_remote_broadcast_once: the nodes handed the payload are exactly the nodes with an application on the
+   target network — its stations — each once (hearers lists them in reverse LAN order) *)
+Theorem C06_tree_remote_broadcast_once : forall w d lv up par src ws s smac a_s data mR,
+  internet_ok (lans w) (nodes w) -> tree_to (lans w) (nodes w) d lv up par ->
+  queue w = [] ->
+  nth_error (nodes w) src = Some ws -> w_ports ws = [(s, smac)] -> adapters (w_node ws) = [a_s] ->
+  (a_net a_s = None \/ a_net a_s = Some s) ->
+  (0 < lv s <= 255)%nat ->
+  pending_get (pending (w_node ws)) d = None ->
+  port_mac (nodes w) (par s) = Some mR -> cache_get (rcache (w_node ws)) (a_net a_s) d = Some mR ->
+  apdu_ok data = true ->
+  let w0 := submit w src (ARB d) data in
+  exists k osn, queue (run k w0) = [] /\ (forall k', (k <= k')%nat -> run k' w0 = run k w0) /\
+                trace (run k w0) = osn ++ trace w /\
+                hearers osn = rev (map fst (filter (appb (nodes w)) (lan_members (lans w) d))).
+Proof. exact tree_remote_broadcast_once. Qed.
+Print Assumptions C06_tree_remote_broadcast_once.
+
 (* C06_reply_routable is FALSE of the code when the originator is an application on a router: router with ports
    (net 1, net 2), local adapter = net 2, broadcasts globally; the station on net 1 is shown the router's net-1
    address in local form; its reply to that address arrives on the non-local adapter and is handed to nobody. *)
@@ -461,6 +511,76 @@ Proof.
       * vm_compute. repeat constructor; cbn; intuition discriminate.
       * intros x Hx. vm_compute in Hx. destruct Hx as [Hx|[Hx|[Hx|[]]]]; subst x; vm_compute; auto.
   - vm_compute. reflexivity.
+Qed.
+
+Ltac split_lan lan :=
+  repeat match goal with
+  | |- context [N.eqb ?k lan] => destruct (N.eqb_spec k lan); [subst lan|]
+  | H : context [N.eqb ?k lan] |- _ => destruct (N.eqb_spec k lan); [subst lan|]
+  end.
+
+(* the hypotheses of the tree theorems are satisfiable: tree4 is internet_ok and loop-free/warm towards network 4 *)
+Example C06_tree4_internet_ok : internet_ok (lans tree4) (nodes tree4).
+Proof.
+  constructor.
+  - intros lan x Hx. cbn [lans tree4 lan_members] in Hx. split_lan lan; cbn in Hx;
+      repeat (destruct Hx as [Hx|Hx]; [subst x; eexists; reflexivity|]); contradiction.
+  - intros [who p] lan m H. unfold port_of in H. cbn [fst snd nodes tree4] in H.
+    do 7 (destruct who as [|who]; [do 3 (destruct p as [|p]; [cbn in H; inversion H; subst; cbn; auto 6|]); destruct p; discriminate|]).
+    destruct who; discriminate.
+  - intro lan. apply lans_distinctb_sound. reflexivity.
+  - intro lan. cbn [lans tree4 lan_members]. split_lan lan; cbn; repeat constructor; cbn; intuition discriminate.
+  - intros who w H. cbn [nodes tree4] in H.
+    do 7 (destruct who as [|who]; [inversion H; subst;
+      first [left; unfold router_shape; cbn; repeat split; [lia|repeat constructor; cbn; intuition discriminate]
+            |right; unfold station_shape; cbn; do 3 eexists; repeat split; auto]|]).
+    destruct who; discriminate.
+Qed.
+
+Definition lv4 (L : N) : nat := if L =? 4 then 0%nat else if L =? 3 then 1%nat else 2%nat.
+Definition up4 (who : nat) : nat := match who with O => 2%nat | _ => 1%nat end.
+Definition par4 (L : N) : nat * nat := if L =? 3 then (1, 0)%nat else if L =? 1 then (0, 0)%nat else (0, 1)%nat.
+
+Example C06_tree4_tree_to_4 : tree_to (lans tree4) (nodes tree4) 4 lv4 up4 par4.
+Proof.
+  constructor.
+  - reflexivity.
+  - intros who w H Hsh. cbn [nodes tree4] in H.
+    destruct who as [|[|who]].
+    + inversion H; subst. exists 3, [10]. cbn. repeat split; try discriminate.
+      * intros p lp mp Hp Hne. do 3 (destruct p as [|p]; [cbn in Hp; inversion Hp; subst; try reflexivity; try contradiction|]).
+        destruct p; discriminate.
+      * intros _. exists [11]. split; reflexivity.
+    + inversion H; subst. exists 4, [11]. cbn. repeat split; try reflexivity.
+      * intros p lp mp Hp Hne. do 2 (destruct p as [|p]; [cbn in Hp; inversion Hp; subst; try reflexivity; try contradiction|]).
+        destruct p; discriminate.
+      * intro C. contradiction.
+    + exfalso. do 5 (destruct who as [|who]; [inversion H; subst; destruct Hsh as (Hl & _); cbn in Hl; lia|]).
+      destruct who; discriminate.
+  - intros L [[who p] [m Hx]] Hlv. unfold port_of in Hx. cbn [fst snd nodes tree4] in Hx.
+    assert (HL : L = 1 \/ L = 2 \/ L = 3).
+    { do 7 (destruct who as [|who]; [do 3 (destruct p as [|p]; [cbn in Hx; inversion Hx; subst; auto; try (exfalso; apply Hlv; reflexivity)|]); destruct p; discriminate|]).
+      destruct who; discriminate. }
+    destruct HL as [E|[E|E]]; subst L; cbn; (split; [auto 6|]); eexists; (split; [reflexivity|]);
+      (split; [unfold router_shape; cbn; repeat split; [lia|repeat constructor; cbn; intuition discriminate]|discriminate]).
+Qed.
+
+Example C06_tree4_unicast_once :
+  let w0 := submit tree4 2 (ARS 4 [2]) [16; 99; 1] in
+  exists k osn, queue (run k w0) = [] /\ (forall k', (k <= k')%nat -> run k' w0 = run k w0) /\
+                trace (run k w0) = osn ++ trace tree4 /\ oups osn = [OUp 6 (ARS 1 [1]) (ALS [2]) [16; 99; 1]].
+Proof.
+  eapply (tree_unicast_once tree4 4 lv4 up4 par4 2%nat _ 1 [1] _ 6%nat _ [2] _ [16; 99; 1] [10] C06_tree4_internet_ok C06_tree4_tree_to_4);
+    try reflexivity; cbn; auto 6; try lia.
+Qed.
+
+Example C06_tree4_remote_broadcast_once :
+  let w0 := submit tree4 2 (ARB 4) [16; 99; 2] in
+  exists k osn, queue (run k w0) = [] /\ (forall k', (k <= k')%nat -> run k' w0 = run k w0) /\
+                trace (run k w0) = osn ++ trace tree4 /\ hearers osn = [6; 5]%nat.
+Proof.
+  eapply (tree_remote_broadcast_once tree4 4 lv4 up4 par4 2%nat _ 1 [1] _ [16; 99; 2] [10] C06_tree4_internet_ok C06_tree4_tree_to_4);
+    try reflexivity; cbn; auto 6; try lia.
 Qed.
 
 Example C06_tree_unicast_example :
